@@ -288,6 +288,8 @@ def run(prop, res, tier, seed):
             res.add_violation("C09/wrong-type/pipe-into-capture",
                               f"`x |> add(1, _)`: the function's type is shown as `{shown}`, Gleam's is `fn(Int) -> Int`",
                               {"texts": {"m1": fixed2}, "binder": "piped", "shown": shown})
+    # 2b. a custom type may be called like a type of the prelude (legal Gleam: the module's own type wins); expected types by construction
+    run_prelude_named(res, rng, tier)
     # 2. programs
     stats, vstats = run_programs(res, rng, 40 if tier == "quick" else 1200, tier)
     if vstats["expected_rejected"] > 0.5 * max(1, vstats["expected_ok"] + vstats["expected_rejected"]):
@@ -302,6 +304,52 @@ def run(prop, res, tier, seed):
                        f"{len(res.disagreements)} disagreements; first: {rq} impl={a!r} model={b!r}")
     res.cov["rule"] = ("union-find scripts (random + deep chains + out-of-range); type-directed programs (1-2 modules, 4-12 generated functions + 7 polymorphic helpers "
                        "+ a recursion group, items in random order): hover on every binder and function; nontrivial = binders/functions whose type is shown")
+
+
+def run_prelude_named(res, rng, tier):
+    """modules whose own custom type (declared, or imported unqualified from a sibling module, or behind an alias) is called
+    like a prelude type: annotations, constructor fields and results that name it mean the module's type"""
+    names = ["Result", "List", "Int", "Float", "String", "Bool", "Nil", "BitArray", "Outcome"]
+    for n in names:
+        fld = "Int" if n != "Int" else "Float"
+        lit = "3" if n != "Int" else "3.5"
+        ret, retlit, zero = ("String", '"s"', '"z"') if n != "String" else ("Float", "1.5", "0.5")
+        decl = f"pub type {n} {{\n  Mk{n}(score: {fld})\n  Other{n}\n}}\n\n"
+        body = (f"pub fn describe(r: {n}) -> {ret} {{\n  case r {{\n    Mk{n}(_) -> {retlit}\n    Other{n} -> {zero}\n  }}\n}}\n\n"
+                f"pub fn mk() {{\n  Mk{n}({lit})\n}}\n\n"
+                f"pub fn wrap(x: {n}) {{\n  let y = x\n  #(y, {retlit})\n}}\n\n"
+                f"pub type Holder {{\n  Holder(inner: {n})\n}}\n\n"
+                f"pub fn held(h: Holder) {{\n  h.inner\n}}\n")
+        want = {"describe": f"fn({n})->{ret}", "mk": f"fn()->{n}", "wrap": f"fn({n})->#({n},{ret})", "held": f"fn(Holder)->{n}", "y": n}
+        for how in ("declared", "imported"):
+            if how == "declared":
+                files = [("/w/p/src/m1.gleam", decl + body)]
+                fi = 0
+            else:
+                files = [("/w/p/src/m0.gleam", decl), ("/w/p/src/m1.gleam", f"import m0.{{type {n}, Mk{n}, Other{n}}}\n\n" + body)]
+                fi = 1
+            text = files[fi][1]
+            lines = ["ws-begin"] + [f"file\t{p}\t{hexs(t)}" for p, t in files] + ["file\t/w/p/gleam.toml\t" + hexs('name = "p"\n'),
+                     f"root\t/w/p\t{','.join(str(i) for i in range(len(files) + 1))}", f"pkg\tp\t{len(files)}\t1\t-", "ws-end"]
+            probes = []
+            for b in want:
+                needle = f"pub fn {b}(" if b != "y" else "let y"
+                at = text.index(needle) + (7 if b != "y" else 4)
+                probes.append(b)
+                lines.append(f"hover\t{fi}\t{len(text[:at].encode())}")
+            out, rc = common.run_lines(common.HARNESS_BIN, lines)
+            res.cov["evaluations"] += len(probes)
+            if len(out) != len(lines):
+                continue
+            for b, a in zip(probes, out[-len(probes):]):
+                shown = strip_md(unhexs(a.split(" ", 1)[1])) if " " in a else None
+                if shown is None:
+                    continue
+                if re.sub(r"\s+", "", shown) != want[b]:
+                    res.add_violation("C09/wrong-type/custom-type-named-like-prelude",
+                                      f"a module's own type `{n}` ({how}): `{b}` is shown as `{shown}`, Gleam's type is `{want[b]}`",
+                                      {"texts": {p: t for p, t in files}, "binder": b, "shown": shown, "expected": want[b]})
+                    break
 
 
 def replay(prop, path):
